@@ -14,8 +14,17 @@
 //     of other goroutines' keys must return a value their owner's program writes for that key at some point (or
 //     not-found).
 //
+// After the three handles (mode c18, see package cmd/racestress/c18 - the same code runs without -race in stream `conc`):
+//
+//	(iv)  results stay what they were: deterministic Get/Put/Delete programs on a memstore and a SimpleDB handle whose
+//	      Get results (and Put arguments) are compared again after every later step;
+//	(v)   the same with reader goroutines that hold results while writer goroutines overwrite the keys;
+//	(vi)  table readers opened again and again with every read option combination, N goroutines behind a start barrier
+//	      issuing their FIRST value reads on the fresh reader at once.
+//
 // Output: one line `STAT {...}` (JSON) per mode, `MISMATCH <mode> <detail>` per wrong answer (at most 20),
-// `PANIC <detail>` for a recovered panic in a worker.  The race detector writes its reports to stderr.
+// `PANIC <detail>` for a recovered panic in a worker, `VIOLATION {"sig":…,"detail":…,"input":…}` (JSON) per failed
+// oracle of mode c18.  The race detector writes its reports to stderr.
 // Exit code: 0 ok, 3 wrong answers / panics, 66 race detector (its default), anything else = crash.
 package main
 
@@ -41,6 +50,8 @@ import (
 	"github.com/thomasjungblut/go-sstables/simpledb"
 	"github.com/thomasjungblut/go-sstables/skiplist"
 	"github.com/thomasjungblut/go-sstables/sstables"
+
+	"verif/harness/cmd/racestress/c18"
 )
 
 type rng struct{ s uint64 }
@@ -548,9 +559,44 @@ func stressDb(dir string, seed uint64, workers int, dur time.Duration) error {
 	return nil
 }
 
+// ---------------------------------------------------------------------------------------------------------
+// (iv)-(vi) held results and fresh readers (package c18)
+
+func stressC18(dir string, seed uint64, dur time.Duration) error {
+	sink := c18.NewSink()
+	sub := filepath.Join(dir, "c18")
+	if err := os.MkdirAll(sub, 0o700); err != nil {
+		return err
+	}
+	t0 := time.Now()
+	lap := func(name string) {
+		sink.Stat("ms:"+name, int(time.Since(t0).Milliseconds()))
+		t0 = time.Now()
+	}
+	err := c18.Alias(seed, 0, sub, 4, sink)
+	lap("alias")
+	if err == nil {
+		err = c18.Held(seed, 0, sub, dur/16, sink)
+		lap("held")
+	}
+	if err == nil {
+		err = c18.Fresh(seed, 0, sub, dur/6, 400, sink)
+		lap("fresh")
+	}
+	for _, v := range sink.Violations {
+		b, _ := json.Marshal(v)
+		atomic.AddInt64(&mismatches, 1)
+		outMu.Lock()
+		fmt.Printf("VIOLATION %s\n", b)
+		outMu.Unlock()
+	}
+	stat("c18", map[string]any{"ops": sink.Ops, "classes": sink.Stats})
+	return err
+}
+
 func main() {
 	log.SetOutput(io.Discard)
-	mode := flag.String("mode", "all", "db|sst|mmap|all")
+	mode := flag.String("mode", "all", "db|sst|mmap|c18|all (c18 runs after the others)")
 	seed := flag.Uint64("seed", 1, "seed")
 	dur := flag.Duration("dur", 3*time.Second, "duration per mode")
 	workers := flag.Int("workers", 6, "goroutines per handle")
@@ -572,11 +618,19 @@ func main() {
 	defer os.RemoveAll(dir)
 	var modes []string
 	if *mode == "all" {
-		modes = []string{"mmap", "sst", "db"}
+		modes = []string{"mmap", "sst", "db", "c18"}
 	} else {
 		modes = strings.Split(*mode, ",")
 	}
 	sort.Strings(modes)
+	withC18 := false
+	for i, m := range modes { // c18 runs alone, after the concurrent part
+		if m == "c18" {
+			withC18 = true
+			modes = append(modes[:i:i], modes[i+1:]...)
+			break
+		}
+	}
 	var wg sync.WaitGroup
 	errs := make(chan error, len(modes))
 	for _, m := range modes { // the three handles are hammered at the same time
@@ -602,6 +656,12 @@ func main() {
 	wg.Wait()
 	close(errs)
 	code := 0
+	if withC18 {
+		if err := stressC18(dir, *seed, *dur); err != nil {
+			fmt.Println("HARNESS", fmt.Errorf("c18: %w", err))
+			code = 4
+		}
+	}
 	for e := range errs {
 		fmt.Println("HARNESS", e)
 		code = 4
